@@ -2,6 +2,7 @@ package props
 
 import (
 	"fmt"
+	"os"
 	"sort"
 	"strings"
 
@@ -60,7 +61,10 @@ func c12Patches() []c12Patch {
 	chChain := "# DESCTOKEN-C\n@@\nvar x expression\n@@\n-g1(x)\n+h1(x)\n"
 	// '#' lines inside a change (metavariable section, body) are comments, never descriptions of this or the next change
 	chAinner := "# DESCTOKEN-A first\n@@\n# inner comment in the metavariable section\nvar x expression\n@@\n# inner comment in the body\n-f1(x)\n+g1(x)\n# trailing comment of the body\n\n"
+	chShrink := "# DESCTOKEN-SHRINK\n@@\nvar x expression\n@@\n-veryLongFunctionName(x)\n+s(x)\n"
 	return []c12Patch{
+		{"shrink", []string{chShrink}},
+		{"shrink+A", []string{chShrink + "\n" + chA}},
 		{"Ainner+B", []string{chAinner + chB}},
 		{"Ainner+Bdesc", []string{chAinner + chBdesc}},
 		{"two-files:Ainner,B", []string{chAinner, chB}},
@@ -97,8 +101,8 @@ var c12Layout = []string{
 
 var c12LayoutSources = map[string]string{
 	"inline.go": "package main\n\nfunc run() error {\n\tsetup()\n\tv := add(unwrap(20 /* twenty */), 1) // sum\n\tlog(unwrap(v /* inner */ + /* plus */ 2))\n\treturn nil\n}\n",
-	"run.go": "package main\n\nfunc run() error {\n\tsetup()\n\t// Open it.\n\terr := open()\n\tif err != nil {\n\t\tlog(err)\n\t\treturn err\n\t}\n\treturn nil\n}\n",
-	"two.go": "package main\n\n// helper helps.\nfunc helper() {\n\tdebug(func() { // inner\n\t\tx()\n\t})\n\n\tlog(1) // gone\n}\n\nfunc run() error {\n\tsetup() // trailing\n\n\tdebug(1)\n\n\t/* block */\n\terr := open()\n\tif err != nil {\n\t\treturn err\n\t}\n\n\treturn nil\n}\n",
+	"run.go":    "package main\n\nfunc run() error {\n\tsetup()\n\t// Open it.\n\terr := open()\n\tif err != nil {\n\t\tlog(err)\n\t\treturn err\n\t}\n\treturn nil\n}\n",
+	"two.go":    "package main\n\n// helper helps.\nfunc helper() {\n\tdebug(func() { // inner\n\t\tx()\n\t})\n\n\tlog(1) // gone\n}\n\nfunc run() error {\n\tsetup() // trailing\n\n\tdebug(1)\n\n\t/* block */\n\terr := open()\n\tif err != nil {\n\t\treturn err\n\t}\n\n\treturn nil\n}\n",
 }
 
 func c12LayoutPatches(tier string) []c12Patch {
@@ -129,17 +133,20 @@ func c12LayoutPatches(tier string) []c12Patch {
 }
 
 func c12FileSets() [][]string {
-	return [][]string{{"m1.go", "m2.go", "n.go", "gen.go"}, {"nonl.go", "crlf.go", "ugly.go", "imp.go"}, {"bom.go", "cgo.go", "raw.go", "generic.go"}}
+	return [][]string{{"m1.go", "m2.go", "n.go", "gen.go"}, {"nonl.go", "crlf.go", "ugly.go", "imp.go"}, {"bom.go", "cgo.go", "raw.go", "generic.go"}, {"hl.go", "m1.go", "nonl.go", "hl2.go"}}
 }
 
 var c12Sources = map[string]string{
-	"m1.go":      "package a\n\n// F doc.\nfunc F() int {\n\tv := f1(1)\n\treturn v\n}\n",
-	"m2.go":      "package a\n\nimport (\n\t\"fmt\"\n\t\"os\"\n)\n\nfunc G() {\n\tfmt.Println(f1(2), f2(os.Args))\n\tf2(3) // trailing\n}\n",
-	"n.go":       "package a\n\nfunc N(a int) int   { return   a }\n",
-	"gen.go":     "// Code generated by x. DO NOT EDIT.\n\npackage a\n\nfunc H() int {\n\tv := f1(1)\n\treturn v + f2(2)\n}\n",
-	"nonl.go":    "package a\n\nvar A = f1(1)\n\nvar B = 2\n\nvar C = 3\n\nvar D = 4\n\nvar E = 5\n\nvar Z = 26",
-	"crlf.go":    "package a\r\n\r\nvar A = f1(1)\r\n\r\nvar B = f2(2)\r\n",
-	"ugly.go":    "package a\nfunc U( ) {  x:=f2( 1 );_ = x\n  f1(x)}\n",
+	"m1.go":   "package a\n\n// F doc.\nfunc F() int {\n\tv := f1(1)\n\treturn v\n}\n",
+	"m2.go":   "package a\n\nimport (\n\t\"fmt\"\n\t\"os\"\n)\n\nfunc G() {\n\tfmt.Println(f1(2), f2(os.Args))\n\tf2(3) // trailing\n}\n",
+	"n.go":    "package a\n\nfunc N(a int) int   { return   a }\n",
+	"gen.go":  "// Code generated by x. DO NOT EDIT.\n\npackage a\n\nfunc H() int {\n\tv := f1(1)\n\treturn v + f2(2)\n}\n",
+	"nonl.go": "package a\n\nvar A = f1(1)\n\nvar B = 2\n\nvar C = 3\n\nvar D = 4\n\nvar E = 5\n\nvar Z = 26",
+	"crlf.go": "package a\r\n\r\nvar A = f1(1)\r\n\r\nvar B = f2(2)\r\n",
+	"ugly.go": "package a\nfunc U( ) {  x:=f2( 1 );_ = x\n  f1(x)}\n",
+	// hl.go and hl2.go have a second hard link outside the processed tree; the patch "shrink" makes them shorter
+	"hl.go":      "package a\n\nvar H = veryLongFunctionName(1) + veryLongFunctionName(2)\n\nvar I = f1(3)\n",
+	"hl2.go":     "package a\n\nfunc H2() {\n\tveryLongFunctionName(f2(4))\n}\n",
 	"bom.go":     "\xef\xbb\xbfpackage a\n\nvar A = f1(1)\n",
 	"cgo.go":     "package a\n\n/*\n#include <stdio.h>\n*/\nimport \"C\"\n\nimport \"os\"\n\nfunc K() {\n\tf1(C.int(1))\n\tf2(os.Args)\n}\n",
 	"raw.go":     "package a\n\nvar S = `f1(1)\n\tf2(2)  \n` // f1(3)\n\nfunc R() string {\n\treturn f1(S) + `\n`\n}\n",
@@ -153,6 +160,8 @@ func c12Applies(change string, src string) bool {
 		return false // only used to decide which descriptions may be reported
 	}
 	switch {
+	case strings.Contains(change, "-veryLongFunctionName(x)"):
+		return strings.Contains(src, "veryLongFunctionName(")
 	case strings.Contains(change, "-f1(x)"):
 		return strings.Contains(src, "f1(")
 	case strings.Contains(change, "-f2(x)"):
@@ -185,7 +194,10 @@ func c12Gen(tier string, emit func(any)) {
 		}
 	}
 	for _, p := range c12Patches() {
-		for _, set := range c12FileSets() {
+		for si, set := range c12FileSets() {
+			if (si == 3) != strings.HasPrefix(p.id, "shrink") && !(si == 3 && p.id == "A") {
+				continue // the hard-linked set goes with the shrinking patch sets (and with A)
+			}
 			for mask := 1; mask < 16; mask++ {
 				files := map[string]string{}
 				for i, n := range set {
@@ -291,6 +303,13 @@ func c12Run(env *core.Env, ci any) core.Outcome {
 			tree["t/_skip/s.go"] = "package a\n\nfunc S() { f2(1) }\n"
 			sb := newSandbox(env, "c12", tree)
 			defer sb.remove()
+			for _, n := range names {
+				if strings.HasPrefix(n, "hl") {
+					if err := os.Link(sb.path("t/"+n), sb.path("link-of-"+n)); err != nil {
+						panic("harness: " + err.Error())
+					}
+				}
+			}
 			before := sb.snap("")
 			var args []string
 			for i := range c.Patches {
